@@ -72,6 +72,22 @@ Theorem c01_cpm_eof : forall p cs free eof, wf p -> cs <> [] -> (c_end cs - 1) *
 Proof. exact cpm_eof_correct. Qed.
 Print Assumptions c01_cpm_eof.
 
+(* the hypothesis on the parameter block holds for every disk parameter block defined in src/bios/dpb.rs (list regenerated by the
+   translator on every run), so both statements hold for every CP/M disk kind of a2kit, CP/M 2 and 3 *)
+From A2 Require Import Gen.Dpbs Fs.CpmDpbs.
+Theorem c01_cpm_every_dpb : forall d v3 cs free eof, In d dpbs -> cs <> [] ->
+  ((forall c, c_present cs c = true -> c_block_of cs free c <> 0) ->
+   exists l, cpm_read (cpm_of d v3) (cpm_entries (cpm_of d v3) cs free eof) = Some l /\
+   forall c b, In (c, b) l <-> (c_present cs c = true /\ b = c_block_of cs free c))
+  /\ ((c_end cs - 1) * c_bs (cpm_of d v3) < eof -> eof <= c_end cs * c_bs (cpm_of d v3) ->
+      cpm_eof (cpm_entries (cpm_of d v3) cs free eof) = if v3 then eof else (eof + 127) / 128 * 128).
+Proof.
+  intros d v3 cs free eof Hd Hne. split.
+  - intros Hnz. exact (cpm_read_every_dpb d v3 cs free eof Hd Hnz Hne).
+  - exact (cpm_eof_every_dpb d v3 cs free eof Hd Hne).
+Qed.
+Print Assumptions c01_cpm_every_dpb.
+
 Example c01_cpm_nonvacuous :
   let p := {| c_exm := 1; c_bs := 2048; c_spx := 16; c_v3 := false |} in
   wf p /\ cpm_eof (cpm_entries p [0; 1; 17] [5; 6; 7] 35000) = 35072
